@@ -466,6 +466,10 @@ pub fn swarm(prop: Prop, r: &mut Rng, pools: &Pools, corpus_len: usize) -> Swarm
             w.synth = 2;
             w.dropengine = if profile == "engine_churn" { 6 } else { 1 };
             w.clone = if profile == "engine_churn" { 5 } else { 1 };
+            // identity ops (see C03): the engine rebuilt over deep copies of its voices, voices overwritten in place
+            // between two generators - another voice at the same address, deterministically
+            w.rebuild = if profile == "engine_churn" { 6 } else { 1 };
+            w.inplace = if profile == "engine_churn" { 6 } else { 1 };
             nops = r.range(15, 120);
         }
         Prop::C03 => {
@@ -945,7 +949,7 @@ impl Gen {
             }
             16 => Op::Reload { e, voices: self.voices_for_load() },
             19 => Op::ReloadBad { e, kind: self.r.below(3) as u8 },
-            17 => Op::Rebuild { e, how: if self.sw.profile == "identity" { *self.r.pick(&[3u8, 3, 3, 4, 0]) } else { self.r.below(5) as u8 } },
+            17 => Op::Rebuild { e, how: if self.sw.profile == "identity" || self.prop == Prop::C02 { *self.r.pick(&[3u8, 3, 3, 4, 0]) } else { self.r.below(5) as u8 } },
             18 => {
                 // other voices of the same metadata (other bodies), as many as the engine has
                 let cur = sim.engines[e].as_ref().unwrap().voices.clone();
